@@ -225,13 +225,19 @@ class BBAN(common.Base):
             bank_code_length = ranges[Component.BANK_CODE].length
             branch_code_length = ranges[Component.BRANCH_CODE].length
 
-            if len(bank_code) >= bank_code_length + branch_code_length:
+            if (
+                values.get(Component.BRANCH_CODE) is None
+                and len(bank_code) >= bank_code_length + branch_code_length
+            ):
                 start = bank_code_length
                 end = start + branch_code_length
                 components[Component.BRANCH_CODE] = bank_code[start:end]
+                if len(bank_code) == end:
+                    components[Component.BANK_CODE] = bank_code[:start]
 
             for key, value in components.items():
-                components[key] = value[: ranges[key].length]
+                if values.get(key) is None:
+                    components[key] = value[: ranges[key].length]
 
             try:
                 return cls.from_components(
